@@ -218,6 +218,14 @@ func (ex *Exec) applyContract(s *State, fr *Frame, c *ssa.Call, f *ssa.Function,
 	for i, p := range f.Params {
 		vars[p.Name()] = args[i]
 	}
+	// a renamed parameter is still known to the callee's contract under its old name
+	if len(ct.Locals) > 0 {
+		for old, cur := range localRenames(ct.Locals, orderedLocals(f)) {
+			if v, ok := vars[cur]; ok {
+				vars[old] = v
+			}
+		}
+	}
 	pre := s.clone()
 	env := &SpecEnv{ex: ex, cur: s, old: s, vars: vars, fn: f, calleeMode: true}
 	for _, l := range ct.Lets {
